@@ -2,21 +2,13 @@
 
 package bufmodule
 
-import "context"
+import (
+	"context"
 
-// Shared stubs for the bufmodule harnesses (C01-C, C01-D, C10-A, C10-B, C10-C).
-
-// vModule is a stub Module. Only the methods the code under test calls are overridden.
-type vModule struct {
-	Module
-	opaqueID string
-	isTarget bool
-	isLocal  bool
-}
-
-func (m *vModule) OpaqueID() string { return m.opaqueID }
-func (m *vModule) IsTarget() bool   { return m.isTarget }
-func (m *vModule) IsLocal() bool    { return m.isLocal }
+	"github.com/bufbuild/buf/private/pkg/storage"
+	"github.com/bufbuild/buf/private/pkg/storage/storagemem"
+	"github.com/google/uuid"
+)
 
 // vIsNormalizedRelPath is the reference for "normalized and validated" (the documented precondition of every
 // path handed to a moduleReadBucket): non-empty, no empty, "." or ".." component, not rooted. "." (the root)
@@ -165,4 +157,85 @@ func VerifLemma_C01C_ProtoFileTarget() {
 func vHasProtoExt(p string) bool {
 	n := len(p)
 	return n >= 6 && p[n-6] == '.' && p[n-5] == 'p' && p[n-4] == 'r' && p[n-3] == 'o' && p[n-2] == 't' && p[n-1] == 'o'
+}
+
+// VerifLemma_C01C_ProtoFileTargetPackage: proto-file reference targeting through the real Module (real newModule
+// over an in-memory bucket, package clauses scanned by the real fastscan). F .proto files each in package "",
+// "pa" or "pb" (nondet), the referenced file is one of them or a .proto path the module does not contain,
+// includePackageFiles nondet, module target or not:
+// file i is a target file <=> module is target && (i is the referenced file || (includePackageFiles && the
+// referenced file exists, has a non-empty package and file i has the same package)); LICENSE is never a target;
+// GetTargetFileInfos lists exactly the target files sorted by path.
+func VerifLemma_C01C_ProtoFileTargetPackage() {
+	ctx := context.Background()
+	nFiles := verifParam("F")
+	pkg := [vMaxMods]int{}
+	data := map[string][]byte{"LICENSE": []byte("license")}
+	for i := 0; i < nFiles; i++ {
+		pkg[i] = verifNondetChoice(3)
+		src := "syntax = \"proto3\";\n"
+		switch pkg[i] {
+		case 1:
+			src += "package pa;\n"
+		case 2:
+			src += "package pb;\n"
+		}
+		src += "message M {}\n"
+		data[vProtoName(i)] = []byte(src)
+	}
+	bucket, err := storagemem.NewReadBucket(data)
+	verifAssert(err == nil, "memory bucket")
+	ref := verifNondetChoice(nFiles + 1) // nFiles: a path that is not in the module
+	refPath := "zz/none.proto"
+	if ref < nFiles {
+		refPath = vProtoName(ref)
+	}
+	includePackageFiles := verifNondetBool()
+	isTarget := verifNondetBool()
+	module, err := newModule(
+		ctx,
+		func() (storage.ReadBucket, error) { return bucket, nil },
+		"m0", "", nil, uuid.Nil, isTarget, true,
+		func() (ObjectData, error) { return nil, nil },
+		func() (ObjectData, error) { return nil, nil },
+		func() ([]ModuleKey, error) { return nil, nil },
+		nil, nil, refPath, includePackageFiles,
+	)
+	verifAssert(err == nil && module != nil, "real module constructed")
+	if err != nil {
+		return
+	}
+	verifCover("module built")
+	want := [vMaxMods]bool{}
+	nWant := 0
+	for i := 0; i < nFiles; i++ {
+		want[i] = isTarget && (i == ref || (includePackageFiles && ref < nFiles && pkg[ref] != 0 && pkg[i] == pkg[ref]))
+		if want[i] {
+			nWant++
+		}
+		fileInfo, err := module.StatFileInfo(ctx, vProtoName(i))
+		verifAssert(err == nil && fileInfo != nil, "module file is found")
+		if err != nil {
+			return
+		}
+		verifAssert(fileInfo.IsTargetFile() == want[i], "proto file reference target decision equals the reference")
+	}
+	if nWant > 1 {
+		verifCover("package files targeted")
+	}
+	licenseInfo, err := module.StatFileInfo(ctx, "LICENSE")
+	verifAssert(err == nil && licenseInfo != nil && !licenseInfo.IsTargetFile(), "LICENSE is not a target of a proto file reference")
+	targetFileInfos, err := GetTargetFileInfos(ctx, module)
+	verifAssert(err == nil, "target files are listed")
+	if err != nil {
+		return
+	}
+	verifAssert(len(targetFileInfos) == nWant, "exactly the target files are listed")
+	k := 0
+	for i := 0; i < nFiles; i++ {
+		if want[i] && k < len(targetFileInfos) {
+			verifAssert(targetFileInfos[k].Path() == vProtoName(i), "target files listed sorted by path")
+			k++
+		}
+	}
 }
